@@ -300,4 +300,141 @@ theorem vex_rmi_formOk (ctx : Spec.X86.Ctx) (rule : Rule) (p : Parsed) (mb : Bit
     | exact Or.inl (Or.inr (Or.inr (Or.inl ‹_›)))
     | simp [leBytes, allOk]
 
+/-! ### legacy encoding space -/
+
+
+/-- the single mandatory / operand-size prefix the legacy emitters write (`emit_pp`) -/
+def ppBytes (pp : Nat) : List (BitVec 8) := if pp == 1 then [0x66#8] else if pp == 2 then [0xF3#8] else if pp == 3 then [0xF2#8] else []
+
+theorem isLP_66 : isLegacyPrefix 0x66#8 false = true := by decide
+theorem isLP_F3 : isLegacyPrefix 0xF3#8 false = true := by decide
+theorem isLP_F2 : isLegacyPrefix 0xF2#8 false = true := by decide
+theorem isLP_0F : isLegacyPrefix 0x0F#8 false = false := by decide
+
+/-- bit `i` of an optional REX byte -/
+def rexBit (rex : Option (BitVec 8)) (i : Nat) : Bool := match rex with | some b => bit b i | none => false
+
+/-- legacy register form: [66|F3|F2]? [REX]? escape opcode ModRM(mod=11) imm* (64-bit mode) -/
+theorem parse_legacy_reg (r : Rule) (pp : Nat) (rex : Option (BitVec 8)) (o mb : BitVec 8) (imm : List (BitVec 8))
+    (hpp : pp < 4) (hs : r.space = 0) (hfw : r.pp &&& 8 = 0) (hmap : r.map < 4) (hmk : r.modKind ≠ 0)
+    (hrex : ∀ b, rex = some b → b.toNat / 16 = 4 ∧ isLegacyPrefix b false = false)
+    (ho : r.map = 0 → isLegacyPrefix o false = false ∧ (rex = none → o.toNat / 16 ≠ 4))
+    (hmod : bits mb 6 2 = 3) (hlen : imm.length = r.immBytes + r.relBytes) (hmoff : r.moff = false) :
+    parse true r (ppBytes pp ++ rex.toList ++ legacyEscape r.map ++ [o, mb] ++ imm) =
+      .ok { prefixes := ppBytes pp, rex := rex,
+            W := rexBit rex 3, R := rexBit rex 2, X := rexBit rex 1, B := rexBit rex 0,
+            map := r.map, opcode := o, modrm := some mb, addr16 := false, imm := imm,
+            length := (ppBytes pp).length + rex.toList.length + (legacyEscape r.map).length + 2 + imm.length } := by
+  have hpp' : pp = 0 ∨ pp = 1 ∨ pp = 2 ∨ pp = 3 := by omega
+  have hmap' : r.map = 0 ∨ r.map = 1 ∨ r.map = 2 ∨ r.map = 3 := by omega
+  have hmk' : (r.modKind != 0) = true := by simpa using hmk
+  cases rex with
+  | none =>
+    rcases hmap' with m | m | m | m
+    · obtain ⟨ho1, ho2⟩ := ho m
+      have ho2' := ho2 rfl
+      rcases hpp' with h | h | h | h <;> subst h <;>
+        simp [parse, takePrefixes, isLP_66, isLP_F3, isLP_F2, isLP_0F, rexBit, ppBytes, legacyEscape, parseModRM, bind, Except.bind, pure, Except.pure, m, hs, hfw, hmk', hmod,
+          hlen, hmoff, ho1, ho2'] <;> omega
+    all_goals
+      rcases hpp' with h | h | h | h <;> subst h <;>
+        simp [parse, takePrefixes, isLP_66, isLP_F3, isLP_F2, isLP_0F, rexBit, ppBytes, legacyEscape, parseModRM, bind, Except.bind, pure, Except.pure, m, hs, hfw, hmk', hmod,
+          hlen, hmoff] <;> omega
+  | some b =>
+    obtain ⟨hb1, hb2⟩ := hrex b rfl
+    rcases hmap' with m | m | m | m
+    all_goals
+      rcases hpp' with h | h | h | h <;> subst h <;>
+        simp [parse, takePrefixes, isLP_66, isLP_F3, isLP_F2, isLP_0F, rexBit, ppBytes, legacyEscape, parseModRM, bind, Except.bind, pure, Except.pure, m, hs, hfw, hmk', hmod,
+          hlen, hmoff, hb1, hb2] <;> omega
+
+
+
+
+/-- rule side: a legacy-space /r form, `nimm` immediate bytes, whose mandatory / operand-size prefix is `pp` (0 none, 1 66, 2 F3, 3 F2) -/
+structure LegRule (rule : Rule) (nimm pp : Nat) : Prop where
+  hmodes : rule.modes &&& 2 ≠ 0
+  hs : rule.space = 0
+  hpp8 : rule.pp &&& 8 = 0
+  h66 : (rule.pp &&& 1 != 0 || rule.osz == 16) = (pp == 1)
+  hF3 : (rule.pp &&& 2 != 0) = (pp == 2)
+  hF2 : (rule.pp &&& 4 != 0) = (pp == 3)
+  hpplt : pp < 4
+  hri : rule.ri = false
+  hmk : rule.modKind = 1 ∨ rule.modKind = 2
+  hmr : rule.modr = 8
+  hmrm : rule.modrm = 8
+  himm : rule.immBytes = nimm
+  hrel : rule.relBytes = 0
+  hmoff : rule.moff = false
+  ha67 : rule.a67 = false
+  hrev : rule.immRev = false
+
+/-- what the parser returned for a legacy register form -/
+structure LegParsed (rule : Rule) (p : Parsed) (mb : BitVec 8) (pp : Nat) : Prop where
+  hvk : p.vexKind = 0
+  hpfx : p.prefixes = ppBytes pp
+  hmodrm : p.modrm = some mb
+  hmod : bits mb 6 2 = 3
+  hop : p.opcode.toNat = rule.opcode
+  hw : wWant rule = 2 ∨ p.W = (wWant rule == 1)
+  hR' : p.R' = false
+
+theorem count_ppBytes (pp : Nat) (h : pp < 4) :
+    (ppBytes pp).count 0x66#8 = (if pp == 1 then 1 else 0) ∧ (ppBytes pp).count 0xF3#8 = (if pp == 2 then 1 else 0) ∧
+    (ppBytes pp).count 0xF2#8 = (if pp == 3 then 1 else 0) ∧ (ppBytes pp).count 0xF0#8 = 0 ∧ (ppBytes pp).count 0x9B#8 = 0 ∧
+    (ppBytes pp).count 0x67#8 = 0 ∧ (ppBytes pp).filter isSegByte = [] ∧ (ppBytes pp).contains 0x67#8 = false := by
+  have : pp = 0 ∨ pp = 1 ∨ pp = 2 ∨ pp = 3 := by omega
+  rcases this with h | h | h | h <;> subst h <;> decide
+
+/-- legacy shape [reg, rm] (either operand order is handled by the roles of the form) -/
+theorem leg_2reg_formOk (ctx : Spec.X86.Ctx) (rule : Rule) (p : Parsed) (mb : BitVec 8) (bytes : List (BitVec 8)) (pp : Nat)
+    (ka kb : RegKind) (fa fb : FormOp) (ia ib : Nat)
+    (hm64 : ctx.mode64 = true) (hka : PlainKind ka) (hkb : PlainKind kb)
+    (R : LegRule rule 0 pp)
+    (hroles : (fa.role = .reg ∧ fb.role = .rm ∧ regNum false p.R (bits mb 3 3) = ia ∧ regNum false p.B (bits mb 0 3) = ib) ∨
+              (fa.role = .rm ∧ fb.role = .reg ∧ regNum false p.B (bits mb 0 3) = ia ∧ regNum false p.R (bits mb 3 3) = ib))
+    (hal : alignOps rule.oszEff rule.ops [.reg ka ia, .reg kb ib] = some [(fa, some (.reg ka ia)), (fb, some (.reg kb ib))])
+    (hparse : parse true rule bytes = .ok p) (P : LegParsed rule p mb pp) :
+    formOk ctx rule [.reg ka ia, .reg kb ib] {} bytes = true := by
+  obtain ⟨hvk, hpfx, hmodrm, hmod, hop, hw, hR'⟩ := P
+  obtain ⟨hmodes, hs, hpp8, h66, hF3, hF2, hpplt, hri, hmk, hmr, hmrm, himm, hrel, hmoff, ha67, hrev⟩ := R
+  obtain ⟨c66, cF3, cF2, cF0, c9B, c67, cseg, ccont⟩ := count_ppBytes pp hpplt
+  have hleg : isLegacySpace rule = true := by simp [isLegacySpace, hs]
+  simp only [formOk, conds, hm64, hal, hparse]
+  rcases hroles with ⟨ra, rb, na, nb⟩ | ⟨ra, rb, na, nb⟩
+  all_goals
+    simp only [allOk_cons, allOk_append, decorConds, headConds, prefixConds, modrmConds, operandConds, opConds, tailConds, ra, rb,
+      regConds_plain _ _ _ _ _ hka, regConds_plain _ _ _ _ _ hkb, allOk_nil, memOperandOf, implMemOf, usesVvvv, memDestOf,
+      hasBcst, hleg, hri, hmodrm, hpfx, hvk, c66, cF3, cF2, cF0, c9B, c67, cseg, ccont, h66, hF3, hF2, hR']
+    simp [hmodes, hop, na, nb, hmod, hmr, hmrm, hs, hpp8, ha67, allOk]
+    exact ⟨⟨hw, by simpa using c66, by simpa using cF3, by simpa using cF2, cF0, c9B, by omega, by simpa using ccont⟩,
+      by rcases hmk with h | h <;> omega⟩
+
+/-- legacy shape [reg, rm, imm8] -/
+theorem leg_2reg_imm_formOk (ctx : Spec.X86.Ctx) (rule : Rule) (p : Parsed) (mb : BitVec 8) (bytes : List (BitVec 8)) (pp : Nat)
+    (ka kb : RegKind) (fa fb : FormOp) (ia ib : Nat)
+    (hm64 : ctx.mode64 = true) (hka : PlainKind ka) (hkb : PlainKind kb)
+    (R : LegRule rule 1 pp) (f3 : FormOp) (v : BitVec 64) (hf3 : f3.role = .imm) (hib : immBitsOf f3 = 8) (hsg : (immSignOf f3 == 1) = false)
+    (himmp : p.imm = [BitVec.ofNat 8 v.toNat])
+    (hroles : (fa.role = .reg ∧ fb.role = .rm ∧ regNum false p.R (bits mb 3 3) = ia ∧ regNum false p.B (bits mb 0 3) = ib) ∨
+              (fa.role = .rm ∧ fb.role = .reg ∧ regNum false p.B (bits mb 0 3) = ia ∧ regNum false p.R (bits mb 3 3) = ib))
+    (hal : alignOps rule.oszEff rule.ops [.reg ka ia, .reg kb ib, .imm v] = some [(fa, some (.reg ka ia)), (fb, some (.reg kb ib)), (f3, some (.imm v))])
+    (hparse : parse true rule bytes = .ok p) (P : LegParsed rule p mb pp) :
+    formOk ctx rule [.reg ka ia, .reg kb ib, .imm v] {} bytes = true := by
+  obtain ⟨hvk, hpfx, hmodrm, hmod, hop, hw, hR'⟩ := P
+  obtain ⟨hmodes, hs, hpp8, h66, hF3, hF2, hpplt, hri, hmk, hmr, hmrm, himm, hrel, hmoff, ha67, hrev⟩ := R
+  obtain ⟨c66, cF3, cF2, cF0, c9B, c67, cseg, ccont⟩ := count_ppBytes pp hpplt
+  have hleg : isLegacySpace rule = true := by simp [isLegacySpace, hs]
+  simp only [formOk, conds, hm64, hal, hparse]
+  rcases hroles with ⟨ra, rb, na, nb⟩ | ⟨ra, rb, na, nb⟩
+  all_goals
+    simp only [allOk_cons, allOk_append, decorConds, headConds, prefixConds, modrmConds, operandConds, opConds, tailConds, ra, rb, hf3, hib, hsg, himmp, immBytesOf, hrev, Bool.false_and, Bool.false_eq_true, ↓reduceIte,
+      regConds_plain _ _ _ _ _ hka, regConds_plain _ _ _ _ _ hkb, allOk_nil, memOperandOf, implMemOf, usesVvvv, memDestOf,
+      hasBcst, hleg, hri, hmodrm, hpfx, hvk, c66, cF3, cF2, cF0, c9B, c67, cseg, ccont, h66, hF3, hF2, hR']
+    simp [hmodes, hop, na, nb, hmod, hmr, hmrm, hs, hpp8, ha67, allOk, leBytes]
+    exact ⟨⟨hw, by simpa using c66, by simpa using cF3, by simpa using cF2, cF0, c9B, by omega, by simpa using ccont⟩,
+      by rcases hmk with h | h <;> omega⟩
+
+
 end AsmjitVerif.Lemmas.X86Parse
